@@ -438,6 +438,13 @@ type scenario struct {
 	// clearPauseUs: pause between two SendAndClear calls (0 = tight loop). Pacing only shapes
 	// the interleaving; no verdict depends on it.
 	lateBg       bool
+	// shrinkTo > 0 (queue mode, two phases): the drain goroutine is not started while the first
+	// phase fills the queue; then the queue's capacity is lowered to shrinkTo — below the backlog,
+	// which is what OneWayTcpClient.ApplyConfig does on a configuration reload with a smaller
+	// oneway_queue_size (Queue.SetCapacity) — the drain is started and the second phase sends.
+	// Sends refused while the queue is over its new capacity are errors (not accepted); whatever
+	// was accepted before or after must arrive once, in order.
+	shrinkTo int
 	clearPauseUs int
 	relicense   bool // change the client's default license between two phases of sends
 	poison      bool // now and then a sender hands over a pack whose Write panics half-way
@@ -548,7 +555,7 @@ func runScenario(c *vlib.Ctx, sc scenario, r *vlib.Rand, label string) {
 		defer cl.Destroy()
 	} else {
 		cl = oneway.NewOneWayTcpClientVerif(opts...)
-		if sc.bg && !sc.lateBg {
+		if sc.bg && !sc.lateBg && sc.shrinkTo == 0 {
 			cl.VerifStartProcess()
 		}
 		if sc.bg && sc.lateBg {
@@ -629,6 +636,9 @@ func runScenario(c *vlib.Ctx, sc scenario, r *vlib.Rand, label string) {
 	if sc.relicense {
 		phases = [][2]int{{0, sc.perSender / 2}, {sc.perSender / 2, sc.perSender}}
 	}
+	if sc.shrinkTo > 0 {
+		phases = [][2]int{{0, sc.perSender / 2}, {sc.perSender / 2, sc.perSender}}
+	}
 	if sc.queueIdleMs > 0 {
 		a, b := sc.perSender/3, 2*sc.perSender/3
 		phases = [][2]int{{0, a}, {a, b}, {b, sc.perSender}}
@@ -641,6 +651,15 @@ func runScenario(c *vlib.Ctx, sc scenario, r *vlib.Rand, label string) {
 			}
 			time.Sleep(time.Duration(sc.queueIdleMs) * time.Millisecond)
 			c.Count("queue_idle_periods", 1)
+		}
+		if pi == 1 && sc.shrinkTo > 0 {
+			c.Count("queue_shrunk_below_backlog", 1)
+			c.Max("max_backlog_at_shrink", int64(cl.Queue.Size()))
+			cl.Queue.SetCapacity(sc.shrinkTo)
+			if r.Intn(2) == 0 {
+				cl.SendAndClear() // the caller-driven drain empties the backlog first
+			}
+			cl.VerifStartProcess()
 		}
 		if pi == 1 && sc.relicense {
 			// no send is in flight: the default license changes (what a configuration reload does)
@@ -1462,6 +1481,12 @@ func main() {
 	})
 	// queue mode with a queue far smaller than the bursts: sends are refused while it is full;
 	// whatever was accepted (nil) must still arrive exactly once, in order
+	c.Cases("queue-shrink", scale(8, 120), func(i int, r *vlib.Rand) {
+		senders, per := r.Range(1, 4), 2*r.Range(4, 30)
+		backlog := senders * per / 2
+		runScenario(c, scenario{kind: "queue-shrink", senders: senders, perSender: per, gomax: gomaxes[i%4], useQueue: true, queueSize: backlog + r.Range(1, 50), bg: true,
+			shrinkTo: r.Range(1, backlog)}, r, fmt.Sprint("queue-shrink#", i))
+	})
 	c.Cases("queue-overflow", scale(10, 160), func(i int, r *vlib.Rand) {
 		runScenario(c, scenario{kind: "queue-overflow", senders: r.Range(1, 8), perSender: r.Range(80, 300), gomax: gomaxes[i%4], useQueue: true, queueSize: r.Range(1, 12), bg: true}, r, fmt.Sprint("queue-overflow#", i))
 	})
